@@ -1243,6 +1243,136 @@ def check_polynomials(ctx, hz):
             ctx.disagree('C13 ortho', {'n': n, "n'": n2, 'm': m, 'impl (32-point Gauss-Legendre of zernike_radial)': repr(g), 'model': str(q)})
 
 
+# =============================================================================================
+# Part F: make_zernike_basis with a grid, column by column against the array-level model `basisA` (`C13 abasis`)
+# =============================================================================================
+
+_ORDER = {}
+
+
+def documented_mode(ansi, i):
+    if not _ORDER:
+        _ORDER['noll'] = expected_noll(NMAX + 2); _ORDER['ansi'] = expected_ansi(NMAX + 2)
+    a, b = _ORDER['ansi' if ansi else 'noll']
+    j = i if ansi else i - 1
+    return int(a[j]), int(b[j])
+
+
+def gen_abasis_case(rng, big=False):
+    kind = ['polar-points', 'polar-separated'][int(rng.integers(0, 2))]
+    D = gen_D(rng)
+    case = {'what': 'abasis', 'kind': kind, 'D': D, 'cache': True, 'reqs': []}
+    if kind == 'polar-points':
+        case['r'] = gen_radii(rng, D, int(rng.integers(4, 9 if not big else 16)))
+        case['ang'] = [list(gen_angle(rng)) for _ in case['r']]
+    else:
+        case['R'] = gen_radii(rng, D, int(rng.integers(4, 8 if not big else 12)))
+        case['ang'] = [list(gen_angle(rng)) for _ in range(int(rng.integers(1, 5 if not big else 8)))]
+    ansi = bool(rng.random() < 0.5)
+    num = int(rng.integers(1, 13 if not big else 40))
+    lo = 0 if ansi else 1
+    total = (NMAX + 1) * (NMAX + 2) // 2
+    start = int(rng.integers(lo, lo + total - num + 1)) if rng.random() < 0.7 else lo
+    case.update(ansi=ansi, num=num, start=start, cut=[None, True, False][int(rng.integers(0, 3))],
+                use_cache=[None, True, False][int(rng.integers(0, 3))])
+    return case
+
+
+def run_abasis(hz, case):
+    """Returns (bad, columns or None, pts, amb, mags)"""
+    grid, pts = build(case)
+    D = case['D']
+    outside, amb = cut_info(pts, D)
+    cut = True if case['cut'] is None else case['cut']
+    npts = len(pts[1])
+    kw = {}
+    if case['cut'] is not None:
+        kw['radial_cutoff'] = case['cut']
+    if case['use_cache'] is not None:
+        kw['use_cache'] = case['use_cache']
+    tag = 'make_zernike_basis(%d,D=%r,grid,starting_mode=%d,ansi=%r%s) on a %s grid' % (
+        case['num'], D, case['start'], case['ansi'], ''.join(',%s=%r' % kv for kv in kw.items()), case['kind'])
+    before = [np.asarray(c).tobytes() for c in (grid.separated_coords if grid.is_separated else grid.coords)]
+    try:
+        with warnings.catch_warnings():
+            warnings.simplefilter('ignore')
+            B = hz.make_zernike_basis(case['num'], D, grid, case['start'], case['ansi'], **kw)
+            M = B.transformation_matrix
+            M = np.asarray(M.todense()) if hasattr(M, 'todense') else np.asarray(M, dtype=float)
+    except Exception as e:      # noqa
+        return [('basis-grid raises', '%s raises %s: %s' % (tag, type(e).__name__, e), 0)], None, pts, amb, []
+    bad, mags = [], []
+    if M.shape != (npts, case['num']):
+        return [('basis-grid shape', '%s: transformation matrix has shape %r for %d points and %d modes' % (tag, M.shape, npts, case['num']), 0)], None, pts, amb, []
+    after = [np.asarray(c).tobytes() for c in (grid.separated_coords if grid.is_separated else grid.coords)]
+    if before != after:
+        bad.append(('basis-grid input-mutated', '%s changed the coordinates of the grid' % tag, 0))
+    for j in range(case['num']):
+        n, m = documented_mode(case['ansi'], case['start'] + j)
+        ref, mag = reference(n, m, D, cut, pts, outside)
+        mags.append(mag)
+        c = compare_vec(M[:, j], ref, mag, amb, cut, npts)
+        if c and not any(k == 'basis-grid ' + c[0] for k, _, _ in bad):
+            bad.append(('basis-grid ' + c[0], '%s: column %d (documented mode n=%d, m=%d): %s' % (tag, j, n, m, c[1]), j))
+    return bad, M, pts, amb, mags
+
+
+def check_abasis(ctx, hz):
+    rng = ctx.rng
+    angs = [[1, 0, 1], [3, 4, 5], [-5, 12, 13], [0, -1, 1], [-15, -8, 17]]
+    cases = [{'what': 'abasis', 'kind': 'polar-separated', 'D': 1.0, 'R': [0.0, 0.125, 0.25, 0.4375, 0.5, 0.625], 'ang': angs, 'cache': True, 'reqs': [],
+              'ansi': a, 'num': 231, 'start': 0 if a else 1, 'cut': None, 'use_cache': u} for a in (False, True) for u in (None, False)]
+    cases += [{'what': 'abasis', 'kind': 'polar-points', 'D': 1.5, 'r': [0.0, 0.75, 0.125, 0.5, 1.0, 2.0 ** -20], 'ang': angs + [[4, 3, 5]], 'cache': True, 'reqs': [],
+               'ansi': True, 'num': 231, 'start': 0, 'cut': False, 'use_cache': True}]
+    cases += [gen_abasis_case(rng, not ctx.quick()) for _ in range(ctx.scale(40, 600))]
+    lines, slots = [], []
+    for case in cases:
+        bad, M, pts, amb, mags = run_abasis(hz, case)
+        seen = set()
+        for key, what, j in bad:
+            if key in seen:
+                continue
+            seen.add(key)
+            small = dict(case, start=case['start'] + j, num=1)
+            if not any(k == key for k, _, _ in run_abasis(hz, small)[0]):
+                small = dict(case, num=j + 1)
+            ctx.violation(key, what, small)
+        ctx.count('abasis:%s' % case['kind']); ctx.count('abasis:ansi=%r,cut=%r,use_cache=%r' % (case['ansi'], case['cut'], case['use_cache']))
+        ctx.count('abasis-columns', case['num'])
+        for j in range(case['num']):
+            n, m = documented_mode(case['ansi'], case['start'] + j)
+            ctx.case(None, ('abasis', case['kind'], n, m, case['cut'], case['use_cache']))
+        lines.append(pts_line(pts, case))
+        cut = True if case['cut'] is None else case['cut']
+        uc = True if case['use_cache'] is None else case['use_cache']
+        slots.append((len(lines), case, M, amb, mags, cut))
+        lines.append('C13 abasis %d %d %d %d %d %s' % (case['ansi'], case['start'], case['num'], cut, uc, rat(case['D'])))
+    out = ctx.model(lines)
+    for idx, case, M, amb, mags, cut in slots:
+        if not out[idx].startswith('ok '):
+            raise MachineryError('model answered %r to %r' % (out[idx][:60], lines[idx]))
+        cols = out[idx][3:].split('|')
+        brief = {k: v for k, v in case.items() if k not in ('reqs', 'cache')}
+        if len(cols) != case['num']:
+            raise MachineryError('abasis: %d columns for %d modes' % (len(cols), case['num']))
+        for j, col in enumerate(cols):
+            nm, arr = col.split('=', 1)
+            n, m = (int(x) for x in nm.split(':'))
+            ctx.traces_validated += 1
+            if (n, m) != documented_mode(case['ansi'], case['start'] + j):
+                ctx.disagree('C13 abasis mode', dict(brief, column=j, model=[n, m], documented=list(documented_mode(case['ansi'], case['start'] + j))))
+                break
+            if M is None:
+                ctx.disagree('C13 abasis', dict(brief, column=j, impl='raises / wrong shape', model='a column'))
+                break
+            nf = norm_factor(n, m)
+            mv = np.array([float(nf * (LD(v.numerator) / LD(v.denominator))) for v in parse_rat_list(arr)])
+            r = compare_vec(M[:, j], mv, mags[j], amb, cut, len(mv))
+            if r:
+                ctx.disagree('C13 abasis', dict(brief, column=j, mode=[n, m], detail=r[1]))
+                break
+
+
 # ---- spellings
 
 def grid_only(rng, big=False):
@@ -1472,6 +1602,7 @@ def run(ctx):
                 '(grid=None generator forms evaluated later on two different grids in any order, starting_mode, ansi, radial_cutoff, use_cache, '
                 'D as int/float/0-d array/np.float64, positional vs keyword), each against the definition for the mode the documented ordering names and against the model. '
                 '(E) the radial polynomial as a polynomial: zernike_radial run on the symbolic argument numpy Polynomial([0,1]) (all 121 pairs n <= 20, any request order, with/without one shared cache) against the factorial coefficients (oracle) and the coefficient lists of the model recursion (radialPoly); peval of the model list = radialEval = the code at sampled radii (0, 1, 2^-20, k/256); the Gram matrix of zernike_radial under 32-point Gauss-Legendre quadrature with weight r against delta/(2(n+1)) (oracle) and the exact integral of the model product polynomial (pint01). '
+                '(F) make_zernike_basis(num, D, grid, starting_mode, ansi, radial_cutoff, use_cache) on unstructured and separated polar grids (all 231 modes directed, random windows of indices, every combination of the keyword defaults): every column against the definition of the mode the documented ordering names (oracle) and against the column of the array-level model basisA (C13 abasis), grid coordinates byte-identical afterwards. '
                 'Non-trivial = a mode evaluation on a non-empty grid; distinct by (grid kind, n, m, cutoff, cache, centre present, rim present).')
     ctx.assumptions += ['np.hypot / arctan2 / cos / sin / pow are accurate to a few ulp',
                         'float sqrt in the index maps is tied only on the exhaustively compared range',
@@ -1489,7 +1620,9 @@ def run(ctx):
     check_spellings(ctx, hz)
     ctx.extra['time_spellings_s'] = round(time.time() - t, 1); t = time.time()
     check_polynomials(ctx, hz)
-    ctx.extra['time_polynomials_s'] = round(time.time() - t, 1)
+    ctx.extra['time_polynomials_s'] = round(time.time() - t, 1); t = time.time()
+    check_abasis(ctx, hz)
+    ctx.extra['time_abasis_s'] = round(time.time() - t, 1)
     by = {}
     for d in ctx.disagreements:
         by[d['stream']] = by.get(d['stream'], 0) + 1
@@ -1531,6 +1664,11 @@ def replay(ctx, case):
     elif what == 'noll-injective':
         seen = set(hz.noll_to_zernike(i) for i in range(1, case['N'] + 1))
         ok = len(seen) == case['N']
+    elif what == 'abasis':
+        bad = run_abasis(hz, case)[0]
+        for key, what_, _ in bad[:5]:
+            print('  fails:', key, '-', what_)
+        ok = not bad
     elif what in ('poly', 'ortho'):
         bad = (run_poly if what == 'poly' else run_ortho)(hz, case)[0]
         for key, what_, _ in bad[:5]:
